@@ -1,8 +1,232 @@
+mod aj;
+mod run;
+mod rng;
+mod gen;
+mod helpers;
+mod cli;
+
+use serde_json::{json, Value};
+use std::fs::File;
+use std::io::{BufRead, BufReader, BufWriter, Write};
+use std::sync::mpsc;
+use std::time::Duration;
+
+fn die(msg: &str) -> ! {
+    eprintln!("TOOL-ERROR: {}", msg);
+    std::process::exit(2);
+}
+
+fn arg_opt(args: &[String], name: &str) -> Option<String> {
+    args.iter().position(|a| a == name).and_then(|i| args.get(i + 1).cloned())
+}
+
+fn profile() -> &'static str {
+    if cfg!(debug_assertions) {
+        "debug"
+    } else if (|| -> bool {
+        // overflow checks on?  i32::MAX + 1 panics iff overflow-checks are enabled
+        std::panic::catch_unwind(|| {
+            let x = std::hint::black_box(i32::MAX);
+            let _ = std::hint::black_box(x + 1);
+        })
+        .is_err()
+    })() {
+        "release+overflow-checks"
+    } else {
+        "release"
+    }
+}
+
+/// corpus.json: {"NAME": [json values...], ...}  ->  <outdir>/NAME.ndjson (one AJ value per line)
+fn cmd_encode(args: &[String]) {
+    let src = &args[0];
+    let outdir = &args[1];
+    let text = std::fs::read_to_string(src).unwrap_or_else(|e| die(&format!("{}: {}", src, e)));
+    let v: Value = serde_json::from_str(&text).unwrap_or_else(|e| die(&format!("{}: {}", src, e)));
+    let obj = v.as_object().unwrap_or_else(|| die("corpus must be an object"));
+    std::fs::create_dir_all(outdir).ok();
+    for (name, vals) in obj {
+        let arr = vals.as_array().unwrap_or_else(|| die("corpus entry must be an array"));
+        let mut w = BufWriter::new(File::create(format!("{}/{}.ndjson", outdir, name)).unwrap());
+        for x in arr {
+            let a = aj::to_aj(x);
+            // round trip self check
+            let back = aj::from_aj(&a).unwrap_or_else(|e| die(&e));
+            if back.to_string() != x.to_string() {
+                die(&format!("corpus round trip failed: {}", x));
+            }
+            writeln!(w, "{}", a).unwrap();
+        }
+    }
+}
+
+struct Case {
+    idx: usize,
+    raw: Value,
+    rule: Value,
+    data: Value,
+}
+
+fn load_cases(path: &str) -> Vec<Case> {
+    let f = File::open(path).unwrap_or_else(|e| die(&format!("{}: {}", path, e)));
+    let mut out = Vec::new();
+    for (idx, line) in BufReader::new(f).lines().enumerate() {
+        let line = line.unwrap_or_else(|e| die(&format!("read {}: {}", path, e)));
+        if line.trim().is_empty() {
+            continue;
+        }
+        let raw: Value = serde_json::from_str(&line).unwrap_or_else(|e| die(&format!("{} line {}: torn or invalid JSON: {}", path, idx + 1, e)));
+        let rule = aj::from_aj(&raw["rule"]).unwrap_or_else(|e| die(&format!("{} line {}: rule: {}", path, idx + 1, e)));
+        let data = aj::from_aj(&raw["data"]).unwrap_or_else(|e| die(&format!("{} line {}: data: {}", path, idx + 1, e)));
+        out.push(Case { idx, raw, rule, data });
+    }
+    out
+}
+
+/// Direction A: replay TLC-exported cases into the real code and compare with the spec's expectation.
+fn cmd_replay(args: &[String]) {
+    let cases_path = &args[0];
+    let out_path = &args[1];
+    let events_path = arg_opt(args, "--events");
+    let stack: usize = arg_opt(args, "--stack").map(|s| s.parse().unwrap()).unwrap_or(64 << 20);
+    let timeout_ms: u64 = arg_opt(args, "--timeout").map(|s| s.parse().unwrap()).unwrap_or(20000);
+    let nsamples: usize = arg_opt(args, "--samples").map(|s| s.parse().unwrap()).unwrap_or(3);
+    run::silence_panics();
+    let cases = std::sync::Arc::new(load_cases(cases_path));
+    let mut out = BufWriter::new(File::create(out_path).unwrap());
+    let mut evw = events_path.map(|p| BufWriter::new(File::create(p).unwrap()));
+    let n = cases.len();
+    let mut next = 0usize;
+    let (mut matched, mut mismatched, mut crashed, mut hung) = (0u64, 0u64, 0u64, 0u64);
+    let mut samples: Vec<Value> = Vec::new();
+    while next < n {
+        // worker thread runs cases from `next` on; the main thread is the watchdog
+        let (tx, rx) = mpsc::channel::<(usize, run::Outcome)>();
+        let cs = cases.clone();
+        let start = next;
+        std::thread::Builder::new()
+            .stack_size(stack)
+            .spawn(move || {
+                for i in start..cs.len() {
+                    let o = run::run_apply(&cs[i].rule, &cs[i].data);
+                    if tx.send((i, o)).is_err() {
+                        return;
+                    }
+                }
+            })
+            .unwrap();
+        loop {
+            match rx.recv_timeout(Duration::from_millis(timeout_ms)) {
+                Ok((i, o)) => {
+                    let c = &cases[i];
+                    let fl = &c.raw["fl"];
+                    let zlax = fl["zlax"].as_bool().unwrap_or(false);
+                    let logseq = fl["logseq"].as_bool().unwrap_or(false);
+                    let verdict = run::compare(&c.raw["exp"], &o, zlax, logseq);
+                    if let Some(w) = evw.as_mut() {
+                        for e in run::events_aj(&o.events) {
+                            writeln!(w, "{}", e).unwrap();
+                        }
+                    }
+                    match verdict {
+                        None => {
+                            matched += 1;
+                            if samples.len() < nsamples {
+                                samples.push(json!({"rule": c.rule.to_string(), "data": c.data.to_string(), "outcome": run::outcome_plain(&o)}));
+                            }
+                        }
+                        Some(why) => {
+                            if o.crash.is_some() {
+                                crashed += 1
+                            } else {
+                                mismatched += 1
+                            }
+                            let rec = json!({
+                                "line": c.idx + 1, "id": c.raw.get("id").cloned().unwrap_or(Value::Null),
+                                "kind": if o.crash.is_some() {"crash"} else {"mismatch"},
+                                "why": why, "sc": c.raw.get("sc").cloned().unwrap_or(json!([])),
+                                "rule": c.rule.to_string(), "data": c.data.to_string(),
+                                "expected": plain_exp(&c.raw["exp"]), "actual": run::outcome_plain(&o),
+                                "profile": profile(),
+                                "case": c.raw.clone(),
+                            });
+                            writeln!(out, "{}", rec).unwrap();
+                        }
+                    }
+                    next = i + 1;
+                    if next >= n {
+                        break;
+                    }
+                }
+                Err(mpsc::RecvTimeoutError::Timeout) => {
+                    let c = &cases[next];
+                    hung += 1;
+                    let rec = json!({"line": c.idx + 1, "kind": "hang", "why": format!("no result within {} ms", timeout_ms),
+                        "sc": c.raw.get("sc").cloned().unwrap_or(json!([])),
+                        "rule": c.rule.to_string(), "data": c.data.to_string(), "profile": profile(), "case": c.raw.clone()});
+                    writeln!(out, "{}", rec).unwrap();
+                    next += 1;
+                    break; // abandon the stuck worker, start a new one
+                }
+                Err(mpsc::RecvTimeoutError::Disconnected) => {
+                    if next < n {
+                        die("worker thread died without a result");
+                    }
+                    break;
+                }
+            }
+        }
+    }
+    writeln!(out, "{}", json!({"summary": true, "profile": profile(), "cases": n, "matched": matched, "mismatched": mismatched, "crashed": crashed, "hung": hung, "samples": samples})).unwrap();
+    out.flush().unwrap();
+    if hung > 0 {
+        std::process::exit(0); // stuck threads would block a normal return
+    }
+}
+
+fn plain_exp(exp: &Value) -> Value {
+    let ok = exp["ok"].as_bool().unwrap_or(false);
+    let log: Vec<String> = exp["log"].as_array().map(|a| a.iter().map(|x| aj_text(x)).collect()).unwrap_or_default();
+    if ok {
+        json!({"ok": true, "v": aj_text(&exp["v"]), "log": log})
+    } else {
+        json!({"ok": false, "log": log})
+    }
+}
+
+/// best-effort plain text of an AJ value (spec-computed numbers may lack their text)
+fn aj_text(v: &Value) -> String {
+    match aj::from_aj(v) {
+        Ok(x) => x.to_string(),
+        Err(_) => format!("<AJ {}>", v),
+    }
+}
+
 fn main() {
-    let r = serde_json::json!({"+":[1,2]});
-    println!("{:?}", jsonlogic_rs::apply(&r, &serde_json::Value::Null));
-    jsonlogic_rs::verif::set_enabled(true);
-    let r = serde_json::json!({"log":[{"+":[1,2]}]});
-    println!("{:?}", jsonlogic_rs::apply(&r, &serde_json::Value::Null));
-    println!("{:?}", jsonlogic_rs::verif::take_events());
+    let args: Vec<String> = std::env::args().skip(1).collect();
+    if args.is_empty() {
+        die("usage: jlverif <selftest|encode|replay|record|helpers|cli|...> ...");
+    }
+    let rest = &args[1..];
+    match args[0].as_str() {
+        "selftest" => {
+            if let Err(e) = aj::selftest() {
+                die(&e);
+            }
+            println!("selftest ok ({})", profile());
+        }
+        "profile" => println!("{}", profile()),
+        "encode" => cmd_encode(rest),
+        "replay" => cmd_replay(rest),
+        "record" => gen::cmd_record(rest),
+        "helpers" => helpers::cmd_helpers(rest),
+        "cli" => cli::cmd_cli(rest),
+        "plain" => {
+            // plain <aj.ndjson>: print rule/data as plain JSON (debug aid)
+            for c in load_cases(&rest[0]) {
+                println!("{}\t{}\t{}", c.rule, c.data, plain_exp(&c.raw["exp"]));
+            }
+        }
+        other => die(&format!("unknown subcommand {}", other)),
+    }
 }
